@@ -9,11 +9,13 @@ import (
 	"runtime/debug"
 	"sync"
 	"testing"
+	"time"
 
 	corev1 "k8s.io/api/core/v1"
 	metav1 "k8s.io/apimachinery/pkg/apis/meta/v1"
 	"k8s.io/kubernetes/pkg/scheduler/framework"
 
+	slov1alpha1 "github.com/koordinator-sh/koordinator/apis/slo/v1alpha1"
 	kit "github.com/koordinator-sh/koordinator/pkg/verifkit"
 )
 
@@ -143,5 +145,132 @@ func TestVerifC08Conc(t *testing.T) {
 		if nontrivial {
 			c.NonTrivial()
 		}
+	})
+}
+
+// TestVerifC08Cleanup: the narrowest concurrent shape of the property — the event that removes the
+// LAST object of a node (nodeInfo becomes empty and is removed from the cache) races with an event
+// that adds another object for the same node, each delivered by the goroutine that delivers it in
+// the real scheduler (pod informer, NodeMetric informer, scheduling goroutine for Reserve/Unreserve).
+// Whatever the interleaving, the surviving objects are known, so at quiescence the estimate must be
+// the one computed from scratch from them (both oracles); when no report survived, one is added
+// sequentially afterwards so that a lost pod becomes observable.
+func TestVerifC08Cleanup(t *testing.T) {
+	const rounds = 40
+	kit.Run(t, kit.Config{Property: "C08", Unit: "cleanup", Quick: 1500, Thorough: 40000,
+		Rule: "per case 40 rounds, each on a fresh cache: (0) last pod removed (informer delete / terminate / Unreserve) vs NodeMetric add; (1) NodeMetric delete vs pod add (informer add of a bound pod / Reserve); (2) informer delete of the last pod vs Reserve of another pod; (3) all three goroutines; both estimate oracles at quiescence and again after a sequential NodeMetric add; every round is one evaluation; distinct = (variant, removal kind, add kind, report survived, #assigned); non-trivial = every case (each round ends with a complete report and the oracle run)",
+	}, func(c *kit.Case) {
+		r := c.R
+		or := r.Fork()
+		args, useR3 := c08GenArgs(r)
+		if len(args.EstimatedScalingFactors) == 0 {
+			args.EstimatedScalingFactors = map[corev1.ResourceName]int64{corev1.ResourceCPU: 85, corev1.ResourceMemory: 70}
+		}
+		modes := []c08Mode{{}, {prod: true}, {aggType: "avg"}, {aggType: "p90", aggDur: 5 * time.Minute}}
+		for round := 0; round < rounds; round++ {
+			env := c08NewEnv(c, args, useR3, c08Base)
+			m := c08NewModel(env, 1, 2)
+			node := m.nodes[0]
+			P, Q := m.pods[0], m.pods[1]
+			variant := r.Intn(4)
+			now := env.clk.Now()
+			c.Op("---- round %d variant %d", round, variant)
+			// setup (sequential)
+			removal, addKind := "-", "-"
+			var g []func()
+			mkMetric := func(rr *kit.Rand) *slov1alpha1.NodeMetric {
+				m.mver[node]++
+				return c08GenMetric(rr, env, node, m.mver[node], now, m.hints(node, false), c08MetricOpt{forceFull: true})
+			}
+			placeP := func() {
+				obj := c08NewIncarnation(r, P, useR3)
+				if r.Pct(60) {
+					obj.Spec.NodeName = node
+					c08SetCond(obj, corev1.PodScheduled, corev1.ConditionTrue, now.Truncate(time.Second))
+					m.evInformerAdd(c, "", P, obj)
+					if r.Bool() {
+						removal = "informer-delete"
+						g = append(g, func() { m.evDelete(c, "G-pod: ", P, P.inf, false) })
+					} else {
+						removal = "terminate"
+						rr := r.Fork()
+						g = append(g, func() { m.evUpdate(c, "G-pod: ", "terminate", P, m.mutate(rr, P, "terminate", now)) })
+					}
+				} else {
+					m.evInformerAdd(c, "", P, obj)
+					m.evReserve(c, "", P, node)
+					removal = "unreserve"
+					g = append(g, func() { m.evUnreserve(c, "G-sched: ", P) })
+				}
+			}
+			switch variant {
+			case 0:
+				placeP()
+				addKind = "metric-add"
+				rr := r.Fork()
+				g = append(g, func() { m.evMetric(c, "G-metric: ", node, mkMetric(rr)) })
+			case 1:
+				m.evMetric(c, "", node, mkMetric(r))
+				removal = "metric-delete"
+				g = append(g, func() { m.evMetricDelete(c, "G-metric: ", node, false) })
+				obj := c08NewIncarnation(r, P, useR3)
+				if r.Bool() {
+					addKind = "informer-add-bound"
+					obj.Spec.NodeName = node
+					c08SetCond(obj, corev1.PodScheduled, corev1.ConditionTrue, now.Truncate(time.Second))
+					g = append(g, func() { m.evInformerAdd(c, "G-pod: ", P, obj) })
+				} else {
+					addKind = "reserve"
+					m.evInformerAdd(c, "", P, obj)
+					g = append(g, func() { m.evReserve(c, "G-sched: ", P, node) })
+				}
+			case 2, 3:
+				placeP()
+				if removal == "unreserve" {
+					// keep the two streams on different goroutines of the real system: make the removal an informer event
+					m.evUpdate(c, "", "bind-confirm", P, m.bindConfirm(r, P, now))
+					removal = "informer-delete"
+					g = g[:0]
+					g = append(g, func() { m.evDelete(c, "G-pod: ", P, P.inf, false) })
+				}
+				m.evInformerAdd(c, "", Q, c08NewIncarnation(r, Q, useR3))
+				addKind = "reserve"
+				g = append(g, func() { m.evReserve(c, "G-sched: ", Q, node) })
+				if variant == 3 {
+					addKind = "reserve+metric-add"
+					rr := r.Fork()
+					g = append(g, func() { m.evMetric(c, "G-metric: ", node, mkMetric(rr)) })
+				}
+			}
+			var wg sync.WaitGroup
+			start := make(chan struct{})
+			for i, f := range g {
+				wg.Add(1)
+				go func(i int, f func()) {
+					defer wg.Done()
+					defer func() {
+						if e := recover(); e != nil {
+							c.Report("C08/panic/cleanup-goroutine", "panic in goroutine %d: %v\n%s", i, e, debug.Stack())
+						}
+					}()
+					<-start
+					f()
+				}(i, f)
+			}
+			close(start)
+			wg.Wait()
+			c.Evals(1)
+			c.Count("cleanup_rounds", 1)
+			c.Count(fmt.Sprintf("cleanup_variant_%d", variant), 1)
+			survived := m.metrics[node] != nil
+			out := c08CheckNode(c, or, m, node, modes, fmt.Sprintf("round %d (variant %d: %s vs %s) at quiescence", round, variant, removal, addKind))
+			if !survived {
+				m.evMetric(c, "", node, mkMetric(r))
+				out = c08CheckNode(c, or, m, node, modes, fmt.Sprintf("round %d (variant %d: %s vs %s) after a sequential NodeMetric add", round, variant, removal, addKind))
+			}
+			c.Seen(variant, removal, addKind, survived, out.nAssigned)
+		}
+		c.Evals(-1)
+		c.NonTrivial()
 	})
 }
